@@ -115,7 +115,7 @@ RowSum(T, q, s)  == LET A == Avail(T, s) IN SumSet([a \in A |-> q[s][a]], A)
 Spread(T, q, s)  == RowMax(T, q, s) - RowMin(T, q, s)
 SoftW(e, a)      == e.wh[a] * WH + e.wl[a]
 \* weights usable: logged, and spread small enough for the two partial sums (sum wh <= 2^10, wl < 2^10)
-SoftUsable(T, q, s, e) == e.hw = 1 /\ Spread(T, q, s) * WH * Cardinality(Avail(T, s)) < 1073741824
+SoftUsable(T, q, s, e) == e.hw = 1 /\ Spread(T, q, s) < WU \div Cardinality(Avail(T, s))   \* spread * 2^10 * |A| < 2^30
 SoftNormalised(T, s, e) ==
   LET A == Avail(T, s) IN
   /\ \A a \in A : e.wh[a] >= 0 /\ e.wl[a] >= 0 /\ e.wl[a] < WH
